@@ -39,9 +39,11 @@ def model_case(sysm, u, model):
         if i not in launch0:
             launch0.append(i)
     hang = [i for i in range(n) if ev(z3.Bool('hang_%d' % i))]
+    # targets whose up-to-date check answers "unchanged" (the build is skipped): realised natively by a recorded state
+    skip = sorted({st['alt'][1] for st in steps if st['alt'][0] == 'bf_start' and any('env_unchanged' in o and v for o, v in st['oracles'].items())})
     final_phase = model.eval(u.states[-1]['main.phase'], model_completion=True).as_long()
     return {'final_phase': final_phase, 'final_err': ev(u.states[-1]['main.err']),'kinds': list(sysm.kinds), 'watch': sysm.watch, 'deps': deps, 'roots': roots, 'dup_roots': dups, 'launch0': launch0,
-            'steps': steps, 'hang': hang}
+            'steps': steps, 'hang': hang, 'skip': skip}
 
 
 def _relevant(name, oracle):
@@ -73,6 +75,11 @@ def write_project(case, d):
             lines.append('    input:')
             lines.append('      - paths: [src_t%d]' % i)
             lines.append('      - cmd_stdout: date +%s%N')     # never "unchanged": the skip decision is an oracle in the protocol model
+        elif kind == 'build' and i in case.get('skip', []):
+            # one-shot run in which this build is skipped: a declared input that a warm-up invocation records (see replay_case)
+            open(os.path.join(d, 'in_t%d.txt' % i), 'w').write('v0\n')
+            lines.append('    input:')
+            lines.append('      - paths: [in_t%d.txt]' % i)
     open(os.path.join(d, 'zinoma.yml'), 'w').write('\n'.join(lines) + '\n')
     args = ['t%d' % i for i in case['roots']] + ['t%d' % i for i in case.get('dup_roots', [])]
     if case['watch']:
@@ -222,12 +229,21 @@ def replay_case(case, repo='/repo', keep_dir=None, timeout=60):
     d = tempfile.mkdtemp(prefix='zx-replay-', dir=os.environ.get('VERIF_SCRATCH', '/var/tmp'))
     try:
         args = write_project(case, d)
+        warmup(binpath, case, d)
         sched, order = schedule_for(case, d)
         res = run_native(binpath, d, args, sched, timeout=timeout)
         tr = NativeTrace(res, case)
         return tr, sched, info, args
     finally:
         shutil.rmtree(d, ignore_errors=True)
+
+
+def warmup(binpath, case, d):
+    """Targets the model skips get their state recorded by a free-running invocation before the replayed one."""
+    if case.get('skip') and not case['watch']:
+        r = run_native(binpath, d, ['t%d' % i for i in case['skip']], None, timeout=60)
+        return r['rc']
+    return None
 
 
 def save_replay(path, prop, what, case, sched, args, native):
